@@ -176,6 +176,24 @@ CHECKS = {
             'namespace of one of their ends',
             'deterministic simulation: seeded histories with cross-invariant '
             'oracles against an executable reference model'),
+    'C11': ('store', 'fault_enumeration',
+            'per run one generated starting state (class trees, instances, '
+            'associations over 1-3 namespaces reached by a random history '
+            'incl. association instances without shadow copies) and one '
+            'batch of 2-8 elements; enumerated exhaustively: every position '
+            'k x every rejection reason of the element kind x '
+            'compile_mof_string / compile_mof_file / add_cimobjects, '
+            'compile_schema_classes with an invalid last class, a missing '
+            'include at every position, every single-object operation with '
+            'every documented rejection reason (incl. multi-namespace '
+            'associations and the CIM_Namespace provider); oracle: the '
+            'sorted dump of the complete repository is identical before and '
+            'after every raising call',
+            'a case in which the call does not raise is counted, not '
+            'judged; which exception type is raised is not part of C11',
+            'deterministic simulation: seeded states and batches, '
+            'exhaustive enumeration of (failure position x rejection '
+            'reason) per run, repository-dump equality oracle'),
 }
 
 ENGINES = [
